@@ -20,6 +20,8 @@ type GenConfig struct {
 	LongLived  bool // some conversations span the whole capture
 	LongGaps   bool // idle gaps of 1-3.5 minutes (below the 5 minute inactivity rule)
 	CoarseTick bool // coarse capture clock
+	Jumble     bool // capture files that are not sorted by time
+	Chatty     bool // now and then a flow of thousands of tiny alternating messages
 }
 
 func DefaultGen() GenConfig {
@@ -152,6 +154,15 @@ func Gen(r *rand.Rand, cfg GenConfig) *Spec {
 		twin.Msgs = []MsgSpec{{Dir: 0, Len: 9}, {Dir: 1, Len: 7, GapUS: 1000}}
 		spec.Convs = append(spec.Convs, long, twin)
 	}
+	if cfg.Chatty && r.IntN(25) == 0 {
+		// thousands of direction changes in one stream: its segmentation table is
+		// larger than any buffer a copy loop is likely to use
+		ch := ConvSpec{Proto: "udp", Seed: r.Uint64(), Client: fmt.Sprintf("10.0.2.%d:%d", 20+r.IntN(5), 41000+r.IntN(1000)), Server: "10.1.0.8:5353", StartUS: r.Int64N(horizon), StepUS: 50}
+		for j, m := 0, 2200+r.IntN(2600); j < m; j++ {
+			ch.Msgs = append(ch.Msgs, MsgSpec{Dir: j % 2, Len: 1 + r.IntN(2), GapUS: int64(50 + r.IntN(100))})
+		}
+		spec.Convs = append(spec.Convs, ch)
+	}
 	// unique start times: searches sorted by first packet time stay total orders
 	used := map[int64]bool{}
 	for i := range spec.Convs {
@@ -178,6 +189,7 @@ func Gen(r *rand.Rand, cfg GenConfig) *Spec {
 		spec.Cuts = append(spec.Cuts, cut)
 	}
 	spec.NG = r.IntN(6) == 0
+	spec.Jumble = cfg.Jumble && r.IntN(5) == 0
 	if cfg.CoarseTick && r.IntN(4) == 0 {
 		spec.TickUS = []int64{1000, 100_000, 1_000_000}[r.IntN(3)]
 	}
